@@ -98,36 +98,22 @@ def hashable(k):
 
 
 # ---------------------------------------------------------------------------------------- int/str helpers
-_ISTR = z3.Function('istr', z3.IntSort(), z3.StringSort())       # str(n) for n >= 0
-_SINT = z3.Function('sint', z3.StringSort(), z3.IntSort())       # int(s) for digit strings
-_ISDIG = z3.Function('isdigits', z3.StringSort(), z3.BoolSort())  # s is a non-empty ascii digit string
+_DIGITS = z3.Plus(z3.Range('0', '9'))
 
 
-def ndigits_term(n):
-    t = z3.IntVal(19)
-    for k in range(18, 0, -1):
-        t = z3.If(n < 10 ** k, z3.IntVal(k), t)
-    return t
+def _ISDIG(t):
+    """s is a non-empty ASCII digit string (interpreted: regular-expression membership)"""
+    return z3.InRe(t, _DIGITS)
+
+
+def _SINT(t):
+    """int(s) for an ASCII digit string: SMT-LIB str.to_int (interpreted)"""
+    return z3.StrToInt(t)
 
 
 def istr(I, n):
-    """str(n) of a symbolic non-negative int term; axioms are instantiated per application."""
-    t = _ISTR(n)
-    key = ('istr', n.get_id())
-    if key not in I.p.ghost:
-        I.p.ghost[key] = n     # pins the term (z3 reuses ids)
-        I.p.assume(z3.Implies(n >= 0, z3.And(
-            _SINT(t) == n,
-            _ISDIG(t),
-            z3.If(n < 10 ** 18, z3.Length(t) == ndigits_term(n), z3.Length(t) >= 19),
-            z3.Not(z3.Contains(t, z3.StringVal('-'))),
-            z3.Not(z3.Contains(t, z3.StringVal(':'))),
-            z3.Not(z3.Contains(t, z3.StringVal('T'))),
-            z3.Not(z3.Contains(t, z3.StringVal('.'))),
-            z3.Implies(n < 10, t == z3.SubString(z3.StringVal('0123456789'), n, 1)),
-            z3.Implies(n >= 10, z3.SubString(t, 0, 1) != z3.StringVal('0')),
-        )))
-    return t
+    """str(n) for n >= 0: SMT-LIB str.from_int (interpreted)"""
+    return z3.IntToStr(n)
 
 
 def str_of_int(I, v):
@@ -138,12 +124,24 @@ def str_of_int(I, v):
         return str(v)
     n = v.t
     if I.branch(n >= 0):
-        return Sym(STR, istr(I, n))
-    return Sym(STR, z3.Concat(z3.StringVal('-'), istr(I, -n)))
+        t = istr(I, n)
+        return Sym(STR, t, parts=[Digits(n, 1, t)])
+    t = istr(I, -n)
+    return Sym(STR, z3.Concat(z3.StringVal('-'), t), parts=['-', Digits(-n, 1, t)])
+
+
+def pad_int(I, n, width):
+    """str(n).rjust(width, '0') for n >= 0, by magnitude (no string-length reasoning needed)"""
+    t = istr(I, n)
+    out = t
+    for k in range(width - 1, 0, -1):
+        # n < 10**k has k digits at most: needs width-k zeros when it has exactly k digits
+        out = z3.If(n < 10 ** k, z3.Concat(z3.StringVal('0' * (width - k)), t), out) if k == width - 1 else \
+            z3.If(n < 10 ** k, z3.Concat(z3.StringVal('0' * (width - k)), t), out)
+    return out
 
 
 def zeros(k):
-    """'0'*k for a symbolic k in 0..8 (beyond: unconstrained length handled by caller)"""
     t = z3.StringVal('')
     for j in range(8, 0, -1):
         t = z3.If(k == j, z3.StringVal('0' * j), t)
@@ -151,9 +149,13 @@ def zeros(k):
 
 
 def pad_left_zero(I, s, width):
-    """s.rjust(width,'0') for z3 string term s, concrete small width"""
+    """s.rjust(width,'0') for an arbitrary z3 string term s, concrete small width"""
     if width > 8:
         raise Unsupported('pad width > 8')
+    if z3.is_app(s) and s.decl().kind() == z3.Z3_OP_SEQ_FROM_INT if hasattr(z3, 'Z3_OP_SEQ_FROM_INT') else False:
+        return pad_int(I, s.arg(0), width)
+    if z3.is_app(s) and s.decl().name() in ('int.to.str', 'str.from_int'):
+        return pad_int(I, s.arg(0), width)
     ln = z3.Length(s)
     return z3.If(ln >= width, s, z3.Concat(zeros(width - ln), s))
 
@@ -164,22 +166,16 @@ def format_int_0w(I, v, width):
         v = int(v)
     if isinstance(v, int):
         return format(v, f'0{width}d')
+    if not isinstance(v, Sym):
+        raise PyExc('TypeError' if not isinstance(v, float) else 'ValueError', 'format d of non-int')
     if v.kind != INT:
         raise PyExc('ValueError', 'format d of non-int')
     n = v.t
     if I.branch(n >= 0):
-        t = pad_left_zero(I, istr(I, n), width)
-        note_padded(I, t, n)
-        return Sym(STR, t)
-    t = z3.Concat(z3.StringVal('-'), pad_left_zero(I, istr(I, -n), max(width - 1, 0)))
-    return Sym(STR, t)
-
-
-def note_padded(I, t, n):
-    key = ('pad', t.get_id())
-    if key not in I.p.ghost:
-        I.p.ghost[key] = t     # pins the term (z3 reuses ids)
-        I.p.assume(z3.And(_SINT(t) == n, _ISDIG(t)))
+        t = pad_int(I, n, width)
+        return Sym(STR, t, parts=[Digits(n, width, t)])
+    t = pad_int(I, -n, max(width - 1, 1))
+    return Sym(STR, z3.Concat(z3.StringVal('-'), t), parts=['-', Digits(-n, max(width - 1, 1), t)])
 
 
 def format_value(I, val, spec):
@@ -236,28 +232,53 @@ def real_str(I, t):
     return s
 
 
+def parts_of(v):
+    if isinstance(v, str):
+        return [v] if v else []
+    if isinstance(v, Sym) and v.kind == STR:
+        if v.parts is not None:
+            return list(v.parts)
+        return [OpaqueStr(v.t)]
+    raise Unsupported(f'parts of {v!r}')
+
+
+def norm_parts(ps):
+    out = []
+    for p in ps:
+        if isinstance(p, str):
+            if not p:
+                continue
+            if out and isinstance(out[-1], str):
+                out[-1] = out[-1] + p
+                continue
+        out.append(p)
+    return out
+
+
+def str_from_parts(ps):
+    ps = norm_parts(ps)
+    if not ps:
+        return ''
+    if len(ps) == 1 and isinstance(ps[0], str):
+        return ps[0]
+    terms = [z3.StringVal(p) if isinstance(p, str) else p.t for p in ps]
+    t = terms[0] if len(terms) == 1 else z3.Concat(*terms)
+    if all(isinstance(p, OpaqueStr) for p in ps) and len(ps) == 1:
+        return Sym(STR, t)
+    return Sym(STR, t, parts=ps)
+
+
 def concat_strs(I, parts):
     if all(isinstance(p, str) for p in parts):
         return ''.join(parts)
     if any(isinstance(p, Unknown) for p in parts):
         return I.unknown('concat with unknown')
-    terms = []
-    buf = ''
+    ps = []
     for p in parts:
-        if isinstance(p, str):
-            buf += p
-        else:
-            if buf:
-                terms.append(z3.StringVal(buf))
-                buf = ''
-            if not (isinstance(p, Sym) and p.kind == STR):
-                raise Unsupported(f'concat of {p!r}')
-            terms.append(p.t)
-    if buf:
-        terms.append(z3.StringVal(buf))
-    if len(terms) == 1:
-        return Sym(STR, terms[0])
-    return Sym(STR, z3.Concat(*terms))
+        if not (isinstance(p, str) or (isinstance(p, Sym) and p.kind == STR)):
+            raise Unsupported(f'concat of {p!r}')
+        ps.extend(parts_of(p))
+    return str_from_parts(ps)
 
 
 def ite(I, c, a, b):
@@ -465,6 +486,10 @@ def eq_term(I, a, b):
             bv = b.value if isinstance(b, PyDecimal) else b
             return av == bv
         if ka == STR:
+            from . import strparts as SP
+            r = SP.equal(a, b)
+            if r is not SP.NOTFOUND:
+                return r
             return I.term(a) == I.term(b)
         if BOOL in (ka, kb) and ka != kb:
             ta = I.term(a, INT) if not isinstance(a, Sym) else (z3.If(a.t, 1, 0) if ka == BOOL else a.t)
@@ -599,6 +624,10 @@ def contains(I, container, item):
     if I.kind_of(container) == STR:
         if I.kind_of(item) != STR:
             raise PyExc('TypeError', 'in <str> requires str')
+        from . import strparts as SP
+        r = SP.contains(container, item) if isinstance(item, str) else SP.NOTFOUND
+        if r is not SP.NOTFOUND:
+            return r
         return wrap_bool(z3.Contains(I.term(container), I.term(item)))
     if isinstance(container, SSeq):
         return wrap_bool(z3.Contains(container.t, z3.Unit(elem_term(I, item, container.elem))))
@@ -830,6 +859,22 @@ def slice_(I, o, s):
         return o[lo:hi]
     if isinstance(o, str):
         o = Sym(STR, z3.StringVal(o))
+    if isinstance(o, Sym) and o.kind == STR and o.parts is not None:
+        from . import strparts as SP
+        r = SP.NOTFOUND
+        if hi is None and isinstance(lo, int) and lo >= 0:
+            r = SP.drop_prefix(o, lo)
+        elif lo is None and isinstance(hi, int) and hi < 0:
+            r = SP.drop_suffix_to(o, -hi)
+        elif isinstance(lo, int) and lo >= 0 and isinstance(hi, Sym):
+            # s[k:len(s)-j]
+            ht = z3.simplify(hi.t - z3.Length(o.t))
+            if z3.is_int_value(ht) and ht.as_long() <= 0:
+                r = SP.drop_prefix(o, lo)
+                if r is not SP.NOTFOUND:
+                    r = SP.drop_suffix_to(r, -ht.as_long()) if not isinstance(r, str) else (r[:len(r) + ht.as_long()] if ht.as_long() else r)
+        if r is not SP.NOTFOUND:
+            return r
     if isinstance(o, Sym) and o.kind == STR:
         n = Sym(INT, z3.Length(o.t))
         a, b = slice_bounds(I, lo, hi, n)
